@@ -104,6 +104,7 @@ def check_C06(chk):
     c06c(chk)
     c06d(chk)
     c06e(chk)
+    f_statistic_formulas(chk)
     for r, n in (("C06.a", 28), ("C06.b", 16), ("C06.c", 7), ("C06.d", 10), ("C06.e", 6)):
         chk.floor(r, n)
 
@@ -734,3 +735,153 @@ def c14d(chk):
     if f is not None:
         idx = [(an.const_of(f, t["msg"]["index"]) or {}).get("val") for b, t in f.asserts() if t["msg"]["kind"] == "BoundsCheck"]
         chk.ob("C14.d", "theta::FuLi/singletons-only", idx == [1], f.loc(), "Fu and Li's theta reads class 1 only (indices %s)" % idx)
+
+
+# ---- the f-statistics as expressions ------------------------------------------------------------------------------------
+def formula_term(g, op, depth=0):
+    """The f64 value an operand of function/closure g carries, as a term over  v (the scalar spectrum entry handed in) and fs[k] (the k-th
+    frequency):  ("v",), ("fs", k), ("const", c), ("mul", a, b), ("sub", a, b), ("add", a, b), ("div", a, b), ("powi", a, n), ("?", why).
+    Reads operators written on values (binop) and on references (calls of core::ops::arith::*), through copies, borrows and derefs."""
+    if depth > 40:
+        return ("?", "depth")
+    if op["k"] == "const":
+        v = const_val(op)
+        return ("const", v.get("f") if isinstance(v, dict) else v)
+    pl = op_place(op)
+    if pl is None:
+        return ("?", "operand")
+    l, proj = pl
+    idx = [e for e in proj if e[0] in ("index", "constindex")]
+    if idx:
+        return ("?", "raw index")
+    # strip derefs / tuple fields down to a root local, keeping the tuple path
+    return _term_of_local(g, l, tuple(e for e in proj if e[0] == "field"), depth + 1)
+
+
+def _leaf(g, l, fields):
+    ty = g.local_ty(l)
+    # a closure parameter (possibly a tuple pattern): decide by the type of the addressed part
+    part = ty
+    for e in fields:
+        inner = part.strip().lstrip("&").strip()
+        if inner.startswith("(") and inner.endswith(")"):
+            from rules_panic import _split_generics
+            ps = _split_generics(inner[1:-1])
+            if e[1] < len(ps):
+                part = ps[e[1]]
+    p_ = part.replace("&", "").replace("mut ", "").strip()
+    if p_ == "f64":
+        return ("v",)
+    if p_ in ("[f64]", "alloc::vec::Vec<f64>"):
+        return ("fsvec",)
+    return ("?", "leaf %s" % p_)
+
+
+def _term_of_local(g, l, fields, depth):
+    if depth > 40:
+        return ("?", "depth")
+    if 1 <= l <= g.argc:
+        return _leaf(g, l, fields)
+    d = g.single_def(l)
+    if d is None:
+        return ("?", "multi-def _%d" % l)
+    if d[0] == "assign":
+        rv = d[3]
+        k = rv["k"]
+        if k == "use":
+            if rv["op"]["k"] == "const":
+                return formula_term(g, rv["op"], depth + 1)
+            p2 = op_place(rv["op"])
+            if p2 is None:
+                return ("?", "use")
+            ix = [e for e in p2[1] if e[0] in ("index", "constindex")]
+            if ix:
+                base = _term_of_local(g, p2[0], tuple(e for e in p2[1][:p2[1].index(ix[0])] if e[0] == "field"), depth + 1)
+                kk = ix[0][1] if ix[0][0] == "constindex" else (an.const_of(g, {"k": "copy", "place": {"l": ix[0][1], "p": []}}) or {}).get("val")
+                return ("fs", kk) if base == ("fsvec",) and isinstance(kk, int) else ("?", "index of %s" % (base,))
+            return _term_of_local(g, p2[0], tuple(e for e in p2[1] if e[0] == "field") + tuple(fields), depth + 1)
+        if k in ("ref", "copyforderef", "rawptr"):
+            p2 = P(rv["place"])
+            ix = [e for e in p2[1] if e[0] in ("index", "constindex")]
+            if ix:
+                base = _term_of_local(g, p2[0], tuple(e for e in p2[1][:p2[1].index(ix[0])] if e[0] == "field"), depth + 1)
+                kk = ix[0][1] if ix[0][0] == "constindex" else (an.const_of(g, {"k": "copy", "place": {"l": ix[0][1], "p": []}}) or {}).get("val")
+                return ("fs", kk) if base == ("fsvec",) and isinstance(kk, int) else ("?", "index of %s" % (base,))
+            return _term_of_local(g, p2[0], tuple(e for e in p2[1] if e[0] == "field") + tuple(fields), depth + 1)
+        if k == "binop":
+            op = rv["op"].replace("WithOverflow", "").lower()
+            if op in ("mul", "sub", "add", "div"):
+                return (op, formula_term(g, rv["l"], depth + 1), formula_term(g, rv["r"], depth + 1))
+            return ("?", rv["op"])
+        if k == "cast":
+            return formula_term(g, rv["op"], depth + 1)
+        return ("?", k)
+    if d[0] == "call":
+        t = d[2]
+        cp = t["callee"].get("path") or ""
+        nm = callee_name(t["callee"])
+        if cp in ("core::ops::arith::Mul::mul", "core::ops::arith::Sub::sub", "core::ops::arith::Add::add", "core::ops::arith::Div::div") and len(t["args"]) == 2:
+            return (cp.split("::")[-1], formula_term(g, t["args"][0], depth + 1), formula_term(g, t["args"][1], depth + 1))
+        if nm.endswith("::powi") and len(t["args"]) == 2:
+            n = an.const_of(g, t["args"][1])
+            return ("powi", formula_term(g, t["args"][0], depth + 1), n.get("val") if n else None)
+        if cp in ("core::ops::index::Index::index",) and len(t["args"]) == 2:
+            base = formula_term(g, t["args"][0], depth + 1)
+            n = an.const_of(g, t["args"][1])
+            return ("fs", n.get("val")) if base == ("fsvec",) and n and isinstance(n.get("val"), int) else ("?", "Index::index of %s" % (base,))
+        if nm.split("::")[-1] in ("deref", "as_ref", "as_slice", "borrow"):
+            return formula_term(g, t["args"][0], depth + 1)
+        return ("?", "call " + nm.split("::")[-1])
+    return ("?", d[0])
+
+
+def _norm_term(t):
+    """products flattened and sorted; a square written (x)*(x) or powi(x, 2) is the same"""
+    if not isinstance(t, tuple) or not t:
+        return t
+    if t[0] == "powi" and t[2] == 2:
+        b = _norm_term(t[1])
+        return ("mul", b, b) if False else ("prod", tuple(sorted([b, b], key=repr)))
+    if t[0] == "mul":
+        fs = []
+        def flat(x):
+            x = _norm_term(x)
+            if isinstance(x, tuple) and x and x[0] == "prod":
+                fs.extend(x[1])
+            else:
+                fs.append(x)
+        flat(t[1])
+        flat(t[2])
+        return ("prod", tuple(sorted(fs, key=repr)))
+    if t[0] in ("sub", "add", "div"):
+        return (t[0], _norm_term(t[1]), _norm_term(t[2]))
+    return t
+
+
+def f_statistic_formulas(chk):
+    """F2 = sum v (f0-f1)^2, F3 = sum v (f0-f1)(f0-f2), F4 = sum v (f0-f1)(f2-f3): the per-cell term, read off the innermost function that
+    does the arithmetic (the map closure, or a closure handed to a shared summing helper), with v the cell and f_k the k-th frequency"""
+    prog = chk.prog
+    V = ("v",)
+    def d_(a, b):
+        return ("sub", ("fs", a), ("fs", b))
+    want = {"F2": _norm_term(("mul", V, ("powi", d_(0, 1), 2))),
+            "F3": _norm_term(("mul", ("mul", V, d_(0, 1)), d_(0, 2))),
+            "F4": _norm_term(("mul", ("mul", V, d_(0, 1)), d_(2, 3)))}
+    for nm in ("F2", "F3", "F4"):
+        f = chk.fn(STAT + nm + "::from_sfs_unchecked")
+        if f is None:
+            continue
+        unit = [f] + prog.closures_of(f.path)
+        # the function(s) of the unit that subtract two frequencies
+        arith = [g for g in unit if any(rv["k"] == "binop" and rv["op"].startswith("Sub") for _, _, _, rv, _ in g.assigns()) or
+                 any((t["callee"].get("path") or "") == "core::ops::arith::Sub::sub" for _, t in g.calls())]
+        got = None
+        why = "expected one closure doing the arithmetic, found %d" % len(arith)
+        if len(arith) == 1:
+            g = arith[0]
+            chk.fns_analysed.add(g.path)
+            got = _norm_term(formula_term(g, {"k": "copy", "place": {"l": 0, "p": []}}))
+            why = "per-cell term %s" % (got,)
+        chk.ob("C06.e", "%s/per-cell-term" % nm, got is not None and got == want[nm], f.loc(),
+               "%s sums %s over the cells: %s" % (nm, {"F2": "v (f0 - f1)^2", "F3": "v (f0 - f1)(f0 - f2)", "F4": "v (f0 - f1)(f2 - f3)"}[nm], why))
